@@ -1777,9 +1777,10 @@ def _conv_list(ctx, v=()):
       return ctx.alloc(ListCell(c.seq, c.codec))
     if isinstance(c, IterCell):
       # list(it): consumes the rest of a one-pass iterator
-      n = z3.Length(c.seq)
+      cs = c.cur_seq(ctx)
+      n = z3.Length(cs)
       p = to_z3(c.pos)
-      rest = z3.SubSeq(c.seq, p, n - p)
+      rest = z3.SubSeq(cs, p, n - p)
       nc = c.clone()
       nc.pos = n
       ctx.set_cell(v.addr, nc)
@@ -1832,7 +1833,7 @@ def _b_iter(ctx, v):
     if isinstance(c, IterCell):
       return v
     if isinstance(c, ListCell):
-      return ctx.alloc(IterCell(c.seq, c.codec, 0))
+      return ctx.alloc(IterCell(None, c.codec, 0, src=v))
   if isinstance(v, z3.SeqRef):
     return ctx.alloc(IterCell(v, Codec(v.sort().basis()), 0))
   if hasattr(v, 'make_iter'):
@@ -1844,12 +1845,13 @@ def _b_next(ctx, it, *default):
   if isinstance(it, Ref) and isinstance(it.cell(ctx), IterCell):
     c = it.cell(ctx)
     p = to_z3(c.pos)
-    has = p < z3.Length(c.seq)
+    cs = c.cur_seq(ctx)
+    has = p < z3.Length(cs)
     if ctx.branch(has):
       nc = c.clone()
       nc.pos = p + 1
       ctx.set_cell(it.addr, nc)
-      return c.codec.dec(c.seq[p])
+      return c.codec.dec(cs[p])
     if default:
       return default[0]
     raise RaiseSig(ExcV('StopIteration'))
@@ -1890,6 +1892,14 @@ def _b_str(ctx, *a):
   return StrV()
 
 
+def _b_any(ctx, v):
+  return zor(*[ctx.engine.truth(ctx, x) for x in ctx.engine.concrete_items(ctx, v)])
+
+
+def _b_all(ctx, v):
+  return zand(*[ctx.engine.truth(ctx, x) for x in ctx.engine.concrete_items(ctx, v)])
+
+
 BUILTINS = {
     'len': Handler(_b_len, 'len'),
     'min': Handler(_b_min, 'min'),
@@ -1915,6 +1925,8 @@ BUILTINS = {
     'enumerate': Handler(_b_enumerate, 'enumerate'),
     'zip': Handler(_b_zip, 'zip'),
     'repr': Handler(_b_str, 'repr'),
+    'any': Handler(_b_any, 'any'),
+    'all': Handler(_b_all, 'all'),
     'True': True, 'False': False, 'None': None,
 }
 for _n in ['ValueError', 'KeyError', 'IndexError', 'TypeError', 'StopIteration',
